@@ -2,7 +2,7 @@
 TITLE = "The table manager's log records exactly what was played"
 LEAN_TARGETS = ['BridgeVerif.Props.C08']
 REQUIRED = ['log_is_session_spec', 'log_independent_of_schedule', 'scores_are_opposite', 'passed_out_record_shape',
-            'deal_logged_is_original', 'record_follows_rules']
+            'deal_logged_is_original', 'record_follows_rules', 'main_thread_follows_the_messages']
 SHARDS = {'quick': 4, 'thorough': 16}
 WANT = {'completion', 'log'}
 RULE = ('sessions of 1-3 boards on the unmodified threaded Server with four scripted conforming clients (random legal '
